@@ -104,4 +104,16 @@ PROPS = {
         'assumptions': COMMON_ASSUMPTIONS + ["the clock is monotone (SystemTime going backwards makes Time::elapsed panic: outside the property's quantifier)", "key hashes are u64", "doorkeeper sizing: probes * 2^ceil(log2(max(entries,512))) <= 2^64, i.e. the filter fits in memory"],
         'partial': "'any positive cleanup interval' and thread/timer start-up are runtime behaviour: the ticker is a label in the model and a controllable channel in the harness; memory exhaustion for huge num_counters is outside the model",
     },
+    'C15': {
+        'suites': [('cachet', 300, 3000, ''), ('caches', 300, 3000, ''), ('cachesa', 150, 1500, ''), ('tlfu', 100, 1000, '')],
+        'rule': CACHE_RULE % "Cache and AsyncCache" + "buffer_items drawn from {0, 1, 2, 3, 64} so that flushes happen every lookup, every few lookups, or never; lookups of resident, absent, expired and removed keys; the policy worker scheduled late so that the bounded(3) queue fills and batches are dropped, and after close; the pending batch (get-ring), the queue length, gets_kept / gets_dropped and the sketch rows / doorkeeper words are part of every compared snapshot; monitor: gets_kept + gets_dropped + pending = lookups made (quiescent profiles)",
+        'assumptions': COMMON_ASSUMPTIONS + ["one ring stripe: the sync ring is a pool of RingStripe objects (object-pool crate) and the async one a single mutex-protected stripe; the harness runs clients one segment at a time, so one stripe is in use (which pool slot a thread gets is runtime behaviour)", "key hashes are u64"],
+        'partial': "which stripe of the pool a concurrent client obtains is not modelled (each stripe obeys the same theorems; the accounting theorem is per stripe)",
+    },
+    'C17': {
+        'suites': [('cachet', 400, 4000, ''), ('caches', 300, 3000, ''), ('cachesa', 150, 1500, ''), ('cachecfg', 100, 1000, ''), ('policy', 200, 2000, '')],
+        'rule': CACHE_RULE % "Cache and AsyncCache" + "all eleven counters and the life-expectancy histogram (count, sum, min, max, every bucket) are part of every compared snapshot; cost-decreasing updates (two's-complement CostAdd), evictions, rejections, sweeps, removes, dropped inserts (buffer sizes 1-3), clear; monitors at quiescence: hits + misses = lookups, keys_added - keys_evicted = charged entries, cost_added - cost_evicted = used (wrapping), sets_dropped = inserts of non-resident keys that returned false, histogram count = sum of buckets = evictions of tracked entries since the last clear; the corpus replays D11 (fixed)",
+        'assumptions': COMMON_ASSUMPTIONS + ["counters are wrapping u64s: the conservation theorems are equalities modulo 2^64", "no single cost decrease exceeds 2^64 (DeltaOk; it cannot for i64 costs whose difference does not overflow, D10)", "fewer than num_to_keep = 100000 tracked keys (the pruning of start_ts iterates a HashMap and is not modelled)"],
+        'partial': "ratio() = hits / (hits + misses) is f64 arithmetic over the two modelled counters: computed and compared by the harness (suite cachet), not a Coq statement; striping of each counter over 256 atomics is abstracted to its sum (stripe index (hash % 25) * 10 < 256)",
+    },
 }
